@@ -459,6 +459,58 @@ GUARDED = [
     ("psyclone.psyir.backend.fortran.FortranWriter", "routine_node"),
 ]
 
+def check_attach_and_bring_in(idx, run):
+    # the unified table is attached to the routine as soon as the routine's
+    # own table has been merged: only then do the names chosen for clashing
+    # inner symbols avoid those of the enclosing container
+    cls = idx.get_class(FW)
+    func = cls.methods["routine_node"]
+    mod = cls.module
+    loops = [f for f in ast.walk(func) if isinstance(f, ast.For) and
+             ast.unparse(f.iter) == "node.walk(Schedule)"]
+    ok = False
+    for loop in loops:
+        for st in ast.walk(loop):
+            if isinstance(st, ast.If) and "schedule is node" in \
+                    ast.unparse(st.test) and \
+                    "whole_routine_scope.attach(node)" in ast.unparse(st):
+                ok = True
+    run.check("C04.R3", ok, "FortranWriter.routine_node",
+              "the merged table is attached before inner scopes are merged",
+              "whole_routine_scope is not attached to the routine right "
+              "after the routine's own table was merged: while the inner "
+              "scopes are merged the new table has no enclosing scope, so a "
+              "renamed inner symbol can take the name of a module variable "
+              "the routine uses", loc(mod, func))
+    # module-inlining: what the declarations of the copied symbols need
+    kcls = idx.get_class("KernelModuleInlineTrans")
+    kfunc = None
+    for f in kcls.methods.values():
+        if "symbols_to_bring_in.add(symbol.datatype.precision)" in \
+                " ".join(ast.unparse(f).split()):
+            kfunc = f
+    if kfunc is None:
+        raise AnalysisError("KernelModuleInlineTrans: the code that brings "
+                            "in precision symbols was not found")
+    for st in ast.walk(kfunc):
+        if isinstance(st, ast.If) and any(
+                "symbols_to_bring_in.add(symbol.datatype.precision)" in
+                " ".join(ast.unparse(b).split()) for b in st.body):
+            ttxt = " ".join(ast.unparse(st.test).split())
+            if "isinstance(symbol.datatype.precision" in ttxt or \
+                    "symbol.datatype" not in ttxt:
+                continue     # the inner test / enclosing symbol-kind test
+            run.check(
+                "C04.R4", ttxt in ("hasattr(symbol.datatype, 'precision')",)
+                or "ArrayType" in ttxt and "ScalarType" in ttxt,
+                f"KernelModuleInlineTrans.{kfunc.name}",
+                "the kind parameter of every typed symbol is brought in",
+                f"the precision symbol is only brought into the container "
+                f"when '{ttxt}': an array declared real(kind=wp) is copied "
+                f"without wp, which is then undeclared in the new scope",
+                loc(kcls.module, st))
+
+
 def check(idx, run):
     run.explanation = __doc__
     from sa.guards import check_guards
@@ -468,5 +520,6 @@ def check(idx, run):
     check_scope_merge(idx, run)
     check_rename_guard(idx, run)
     check_inlined_bounds(idx, run)
+    check_attach_and_bring_in(idx, run)
     run.assumptions = ["SymbolTable.merge renames correctly (C16)",
                        "nothing is compiled"]
